@@ -84,9 +84,6 @@ theorem UInv.setW {s : State} (h : UInv s) (i : Nat) (hi : i < s.workers.length)
     · subst e; simpa using c5
     · simp only [e, if_false]; exact h.snap j hj
 
-theorem min_chunk_eq {a b : Nat} (h : min a (b + chunkSize) = b) : a = b := by
-  unfold chunkSize at h; omega
-
 theorem UInv.workerDecide {s : State} (h : UInv s) (i : Nat) (hi : i < s.workers.length)
     (hp : idlePc (getW s i).pc) : UInv (MtDec.setW s i (MtDec.workerDecide (getW s i))) := by
   have hr := h.run i hi
@@ -116,7 +113,7 @@ theorem UInv.workerDecide {s : State} (h : UInv s) (i : Nat) (hi : i < s.workers
         subst e2
         refine ⟨?_, fun x => x⟩
         intro hl
-        have := min_chunk_eq (e1.trans hl)
+        have := e1.trans hl
         simpa [this] using hc
 
 theorem UInv.worker {s s' : State} {l : Label} {i : Nat} (h : UInv s) (hl : l.worker? = some i)
